@@ -241,7 +241,7 @@ func TestC03(t *testing.T) { driveBare(t, "C03", []int{3, 4}, Scale(250, 4000), 
 
 // ---------------- default limiter histories (component 40): C02, C05, C09 and the sequential part of C01 ----------------
 type limHooks struct {
-	afterAcquire  func(l *LimSUT, key int64, ok bool, fail func(sig, d string))
+	afterAcquire  func(l *LimSUT, key int64, ok bool, busy0, limit0 int64, fail func(sig, d string))
 	afterComplete func(l *LimSUT, k int, outcome int64, call []int64, now int64, fail func(sig, d string))
 	afterScript   func(l *LimSUT, fail func(sig, d string))
 	always        func(l *LimSUT, fail func(sig, d string))
@@ -290,6 +290,7 @@ func driveLimiter(t *testing.T, prop string, kinds []int, nCases, nOps int, h li
 						if kind >= 3 {
 							key = int64(1 + r.Intn(len(cfg.S.Parts)+2))
 						}
+						busy0, limit0 := l.S.Busy(), l.S.Limit()
 						ok, now := l.Acquire(key)
 						if ok {
 							starts = append(starts, now)
@@ -298,7 +299,7 @@ func driveLimiter(t *testing.T, prop string, kinds []int, nCases, nOps int, h li
 						hist = append(hist, []int64{1, key, now})
 						rep.Evaluations++
 						if h.afterAcquire != nil {
-							h.afterAcquire(l, key, ok, fail)
+							h.afterAcquire(l, key, ok, busy0, limit0, fail)
 						}
 					case op < 19:
 						var cand []int
@@ -336,7 +337,11 @@ func driveLimiter(t *testing.T, prop string, kinds []int, nCases, nOps int, h li
 						}
 					case op < 22 && kind >= 3:
 						key := nextKey
-						nextKey++
+						if r.Bool(50) {
+							key = int64(1 + r.Intn(len(cfg.S.Parts))) // re-use the name of a (possibly removed) partition
+						} else {
+							nextKey++
+						}
 						pct := []float64{0, 0.1, 0.25}[r.Intn(3)]
 						ok := l.S.AddPartition(key, pct)
 						tr.Op(4, []int64{key, FBits(pct)}, append([]int64{B(ok)}, l.State()...))
@@ -503,12 +508,17 @@ func TestC02(t *testing.T) {
 			if b := l.S.Busy(); b != out {
 				fail("busy", fmt.Sprintf("strategy busy %d but %d granted listeners outstanding", b, out))
 			}
-			if bins := l.S.Bins(); len(bins) > 0 && l.S.Cfg.Kind == 4 {
-				sum := int64(0)
-				for _, b := range bins {
-					sum += b[0]
+			// partition bins hold exactly their outstanding tokens
+			for bi, b := range l.S.Bins() {
+				held := int64(0)
+				for k, d := range l.Done {
+					if !d && l.BinOf[k] == l.S.Live[bi].id {
+						held++
+					}
 				}
-				_ = sum
+				if b[0] != held {
+					fail("bin-count", fmt.Sprintf("bin %d reports busy %d but %d of its listeners are outstanding", bi, b[0], held))
+				}
 			}
 		},
 	})
@@ -608,6 +618,29 @@ func TestC09(t *testing.T) {
 // ---------------- C01: admission is an atomic gate ----------------
 func TestC01(t *testing.T) {
 	driveBare(t, "C01", []int{1, 2}, Scale(300, 4000), Scale(50, 100))
+}
+
+// the same gate rule through the default limiter (any context, cancelled ones included)
+func TestC01Limiter(t *testing.T) {
+	maxSeen := map[*LimSUT]int64{}
+	driveLimiter(t, "C01L", []int{1, 2}, Scale(80, 1500), Scale(120, 250), limHooks{
+		fullDrain: true,
+		afterAcquire: func(l *LimSUT, key int64, ok bool, busy0, limit0 int64, fail func(sig, d string)) {
+			if ok != (busy0 < limit0) {
+				cls := "refused-with-room"
+				if ok {
+					cls = "over-admission"
+				}
+				fail(cls, fmt.Sprintf("Acquire ok=%v with %d tokens outstanding and limit %d", ok, busy0, limit0))
+			}
+			if limit0 > maxSeen[l] {
+				maxSeen[l] = limit0
+			}
+			if ok && l.S.Busy() > maxSeen[l] {
+				fail("over-limit", fmt.Sprintf("%d tokens held, largest limit in force while they were acquired %d", l.S.Busy(), maxSeen[l]))
+			}
+		},
+	})
 }
 
 // concurrent stress: holders counted by the harness never exceed the largest limit in force, no refusal with room at quiescence
